@@ -13,6 +13,7 @@ import (
 // ---- T2 environment: health probes, the reverse proxy, and the event trace ----
 
 type vEvent struct {
+	obj    any
 	kind   string
 	target string
 	req    int
@@ -32,6 +33,10 @@ func vEmit(e vEvent) {
 // vArriveAfter blocks the calling client goroutine until k events have been emitted (or the command under test has
 // returned): client arrivals are placed relative to the steps of the command rather than by a free-running timer.
 var vCmdReturned bool
+
+// directed-schedule switches (used by the small harnesses that exhibit the known findings deterministically)
+var vHoldAfterLookup, vHoldAfterGate, vRelease bool
+var vHeld int
 
 func vArriveAfter(k int) {
 	vBlockUntil(func() bool { return len(vTrace) >= k || vCmdReturned })
@@ -146,6 +151,21 @@ type vProxyPlan struct {
 }
 
 var vProxyPlans = map[int]*vProxyPlan{} // by request number
+var vOpenCtx = map[int]context.Context{}
+var vOpenEnded = map[int]bool{}         // requests currently parked at a target that never answers / an upgraded connection
+
+// vClientsSettled: every client has its response or is parked at a never-answering target / upgraded connection.
+func vClientsSettled(n int) bool {
+	for c := 0; c < n; c++ {
+		if r := vClientResults[c]; r == nil || !r.done {
+			// still parked (and not cancelled meanwhile) counts as settled
+			if !(vOpenEnded[c] && vOpenCtx[c].Err() == nil) {
+				return false
+			}
+		}
+	}
+	return true
+}
 var vReqNumber = map[*http.Request]int{}
 var vReqKey = contextKey("verif-request-number")
 
@@ -178,12 +198,18 @@ func stubReverseProxyServeHTTP(p *httputil.ReverseProxy, w http.ResponseWriter, 
 		if hj, ok := w.(http.Hijacker); ok {
 			hj.Hijack()
 		}
+		vOpenEnded[n] = true
+		vOpenCtx[n] = ctx
 		<-ctx.Done()
+		vOpenEnded[n] = false
 		vEmit(vEvent{kind: "forward_end", target: target, req: n, note: "hijack-closed"})
 		return
 	}
 	if plan.never {
+		vOpenEnded[n] = true
+		vOpenCtx[n] = ctx
 		<-ctx.Done()
+		vOpenEnded[n] = false
 	} else {
 		select {
 		case <-time.After(plan.service):
@@ -226,7 +252,7 @@ func vDoRequest(h http.Handler, n int, host, path string) {
 
 // wrappers that put the deploy's internal steps on the trace (a stub may call the function it replaces)
 
-//verif:stub (*github.com/basecamp/kamal-proxy/internal/server.Router).installService harness=HarnessDeployGate,HarnessRedeployTraffic,HarnessDrainQuiescent
+//verif:stub (*github.com/basecamp/kamal-proxy/internal/server.Router).installService harness=HarnessDeployGate,HarnessRedeployTraffic,HarnessDrainQuiescent,HarnessDrainQuiescentDirected,HarnessPauseHold,HarnessNoProbesAfter,HarnessCmdMix
 func stubInstallServiceTraced(r *Router, s *Service) error {
 	err := r.installService(s)
 	vEmit(vEvent{kind: "swap", ok: err == nil})
@@ -253,4 +279,75 @@ func vTraceString() string {
 		s += " "
 	}
 	return s
+}
+
+//verif:stub (*github.com/basecamp/kamal-proxy/internal/server.Target).Drain harness=HarnessDrainQuiescent,HarnessDrainQuiescentDirected,HarnessPauseHold,HarnessRedeployTraffic,HarnessCmdMix
+func stubTargetDrainTraced(t *Target, timeout time.Duration) {
+	vEmit(vEvent{kind: "drain_begin", target: t.Target()})
+	t.Drain(timeout)
+	vEmit(vEvent{kind: "drain_end", target: t.Target()})
+}
+
+//verif:stub (*github.com/basecamp/kamal-proxy/internal/server.Router).serviceForRequest harness=HarnessDrainQuiescent,HarnessDrainQuiescentDirected,HarnessPauseHold,HarnessRedeployTraffic,HarnessCmdMix
+func stubServiceForRequestTraced(r *Router, req *http.Request) (*Service, string) {
+	s, p := r.serviceForRequest(req)
+	vEmit(vEvent{kind: "lookup", req: vRequestNumber(req), obj: s})
+	if vHoldAfterLookup {
+		// directed schedule: this request is descheduled right after it obtained its service, until released
+		vHeld++
+		vBlockUntil(func() bool { return vRelease })
+	}
+	return s, p
+}
+
+//verif:stub (*github.com/basecamp/kamal-proxy/internal/server.PauseController).Wait harness=HarnessDrainQuiescent,HarnessDrainQuiescentDirected,HarnessPauseHold,HarnessCmdMix
+func stubPauseWaitTraced(p *PauseController) (PauseWaitAction, string) {
+	vEmit(vEvent{kind: "gate_enter"})
+	a, m := p.Wait()
+	vEmit(vEvent{kind: "gate_leave", status: int(a)})
+	if vHoldAfterGate {
+		vHeld++
+		vBlockUntil(func() bool { return vRelease })
+	}
+	return a, m
+}
+
+func vIndexOf(kind string, req int) int {
+	for i, e := range vTrace {
+		if e.kind == kind && (req < 0 || e.req == req) {
+			return i
+		}
+	}
+	return -1
+}
+
+func vLastIndexOf(kind string) int {
+	idx := -1
+	for i, e := range vTrace {
+		if e.kind == kind {
+			idx = i
+		}
+	}
+	return idx
+}
+
+// vLastGateLeave: index of the last gate_leave event before trace index i (single-client harnesses), -1 if none.
+func vLastGateLeave(i int) int {
+	idx := -1
+	for k := 0; k < i && k < len(vTrace); k++ {
+		if vTrace[k].kind == "gate_leave" {
+			idx = k
+		}
+	}
+	return idx
+}
+
+// vGateEnterBefore: index of the gate_enter event matching the gate_leave at index gi.
+func vGateEnterBefore(gi int) int {
+	for k := gi - 1; k >= 0; k-- {
+		if vTrace[k].kind == "gate_enter" {
+			return k
+		}
+	}
+	return -1
 }
